@@ -25,18 +25,18 @@
 static unsigned char tab_in[ABS_MAXAPP][ABS_MAXLEN];
 static size_t tab_len[ABS_MAXAPP];
 static unsigned char tab_out[ABS_MAXAPP][32];
-int abs_napp;
-int abs_oneshot;      /* ghost: number of one-shot tinyjambu_hash() calls */
+unsigned abs_napp;
+unsigned abs_oneshot;      /* ghost: number of one-shot tinyjambu_hash() calls */
 
 void abs_H(unsigned char out[32], const unsigned char *in, size_t len)
 {
-    int id = abs_napp++;
+    unsigned id = abs_napp++;
     CHECK(id < ABS_MAXAPP, "abstract hash: application table large enough (harness bound)");
     CHECK(len <= ABS_MAXLEN, "abstract hash: message fits the model buffer (harness bound)");
     tab_len[id] = len;
     for (size_t i = 0; i < len; ++i) tab_in[id][i] = in[i];
     for (unsigned i = 0; i < 32; ++i) tab_out[id][i] = nondet_uchar();
-    for (int j = 0; j < id; ++j) {
+    for (unsigned j = 0; j < id; ++j) {
         if (tab_len[j] == len) {
             int same = 1;
             for (size_t i = 0; i < len; ++i) if (tab_in[j][i] != tab_in[id][i]) same = 0;
